@@ -149,6 +149,11 @@ func (e *Engine) verifyFuncMode(name, kf string) (*VC, error) {
 		o.ExpectSat = true
 	}
 	perReturn := con.Flags["post-per-return"]
+	if len(con.ExitAsserts) > 0 && !perReturn {
+		fr.perReturn = func(rst *State, rs []*Val, k int, retPos token.Pos) {
+			vc.exitAsserts(fr, con, rst, specVarsFor(fn, params, rs), k, retPos)
+		}
+	}
 	if perReturn {
 		// postconditions are checked at every return site (simpler queries than
 		// the merged exit state when a function has dozens of returns)
@@ -191,6 +196,7 @@ func (e *Engine) verifyFuncMode(name, kf string) (*VC, error) {
 				o.Except = c.Except
 				o.Src = fmt.Sprintf("[return at %s] %s", vc.pos(retPos).String(), c.Src)
 			}
+			vc.exitAsserts(fr, con, rst, vars, k, retPos)
 			if con.Flags["frame-per-return"] && !con.Flags["noframe"] {
 				vc.checkFrame(fr, rst, con, &Env{vc: vc, st: rst, old: fr.entry, vars: vars}, fmt.Sprintf("@ret%d", k))
 			}
@@ -315,3 +321,23 @@ func (vc *VC) checkFrame(fr *Frame, exit *State, con *Contract, env *Env, suffix
 }
 
 var _ = token.NoPos
+
+// exitAsserts checks the contract's exit assertions at one return site. They are
+// evaluated with the frame's locals in scope (a statement about the function's
+// final internal state, e.g. how the result relates to an intermediate list).
+func (vc *VC) exitAsserts(fr *Frame, con *Contract, rst *State, vars map[string]*Val, k int, retPos token.Pos) {
+	for _, c := range con.ExitAsserts {
+		env := vc.loopEnvAt(fr, rst)
+		env.pre = nil
+		for n, v := range vars {
+			env.vars[n] = v
+		}
+		g, err := env.evalBool(c.E)
+		if err != nil {
+			vc.oblige(rst, "spec-error", fmt.Sprintf("exit-assert/%s@ret%d", c.Name, k), "false", c.Pos, err.Error())
+			continue
+		}
+		o := vc.oblige(rst, "assert", fmt.Sprintf("exit/%s@ret%d", c.Name, k), g, c.Pos, c.Src)
+		o.Src = fmt.Sprintf("[return at %s] %s", vc.pos(retPos).String(), c.Src)
+	}
+}
